@@ -5,7 +5,7 @@ from fractions import Fraction
 from common import enc_arr, enc_vec, enc_f, coq_q, coq_list, coq_val, dec_res, run_impl, NonFinite
 from framework import prove, correspond, finish
 
-DEPS = ["Props/C16.vo", "Corr/C16.vo"]
+DEPS = ["Props/C16.vo", "Corr/C16.vo", "Corr/C02.vo"]
 HEADER = ("From Coq Require Import List QArith String.\nFrom BZ Require Import Base.PyVal Gen.PyFnHelpers Gen.PyFnGeometric "
           "Gen.PyFnTriangle Corr.Common Corr.C16.\nImport ListNotations.\nOpen Scope Q_scope.\nOpen Scope string_scope.\n")
 TOL = Fraction(1, 2 ** 48)
@@ -220,6 +220,10 @@ def run(ctx):
                mk_coq(lambda c: "collide_val %s %s %s %s" % (coq_list([p[0] for p in c["p1"]]), coq_list([p[1] for p in c["p1"]]),
                                                            coq_list([p[0] for p in c["p2"]]), coq_list([p[1] for p in c["p2"]]))),
                HEADER, "chk_val", nontrivial=nt)
+    # the compiled twins of segment_intersection / parallel_lines_parameters are only reachable through the
+    # line-line case of all_intersections
+    from checks import isect_common as ic
+    ic.correspond_lines(ctx, n_quick=250)
     return finish(ctx, "scalar predicates are REGENERATED from the Python sources (py2v_more) and their specifications proved over Q; "
                   "convex hull / polygon collision are hand models tied by correspondence, the hull theorem is by complete enumeration "
                   "of the stated finite domains, the separating-axis theorem is for all inputs; Fortran twins are tied by correspondence",
